@@ -2,6 +2,7 @@ package main
 
 import (
 	"fmt"
+	"go/ast"
 	"go/types"
 	"sort"
 	"strings"
@@ -98,8 +99,12 @@ func newExec(w *World, fn *ssa.Function, fc *FuncContract) *Exec {
 
 func (x *Exec) runTop() {
 	fn, fc := x.fn, x.fc
+	// owner(r): the object a reference belongs to (embedded arrays/structs live at references derived
+	// from their enclosing object's, see embRef)
+	x.S.Raw("(define-fun owner ((r Int)) Int (ite (<= r (- 1099511627776)) (mod (- r) 1099511627776) r))")
 	next0 := x.S.DeclareNamed("next@0", SInt)
 	x.S.Assert(IntLe(IntConst(1), next0))
+	x.S.Assert(IntLt(next0, IntConst(1<<38)))
 	x.entry = x.H.Base(next0)
 	disp := funcDisplayName(fn)
 	f := &frame{x: x, fn: fn, fc: fc, vals: map[ssa.Value]Val{}, path: fn.Name(), dispName: disp, entryHeap: x.entry}
@@ -187,6 +192,40 @@ func (x *Exec) runTop() {
 			}
 			x.addObligation("POST", disp, clauseLabel(e), e.Text, r.pc, t, nil)
 		}
+		if len(fc.Finals) > 0 {
+			f.curBlock = r.block
+			fctx := f.contractCtx(r.heap)
+			params := fctx.Vars
+			fctx.Vars = map[string]Val{}
+			bindResults(fctx, fc, fn.Signature, r.vals)
+			fctx.Entry = params
+			heapAt := r.heap
+			fctx.Lookup = func(name string) (Val, bool) {
+				if v, ok := f.lookupLocal(name, heapAt); ok {
+					return v, true
+				}
+				v, ok := params[name]
+				return v, ok
+			}
+			for _, e := range fc.Finals {
+				t, err := fctx.EvalBool(e.Expr)
+				if err != nil && strings.Contains(err.Error(), "unknown identifier") {
+					// a local named by the consequent does not exist at this return: the clause can only
+					// hold here vacuously, so its antecedent must be false
+					if call, ok := e.Expr.(*ast.CallExpr); ok {
+						if id, ok := call.Fun.(*ast.Ident); ok && id.Name == "__imp" {
+							if a, err2 := fctx.EvalBool(call.Args[0]); err2 == nil {
+								t, err = Not(a), nil
+							}
+						}
+					}
+				}
+				if err != nil {
+					abort("final %q: %v", e.Text, err)
+				}
+				x.addObligation("POST", disp, "final:"+clauseLabel(e), e.Text, r.pc, t, nil)
+			}
+		}
 		if fc.HasModifies && !fc.ModAll {
 			x.frameObligations(disp, ri, r, modTargets)
 		}
@@ -239,7 +278,8 @@ func (x *Exec) frameGoal(class, disp, label, k string, pc Term, cur, ref Term) {
 	skn := x.S.freshName("frame_r")
 	sk := Term{skn, SInt}
 	extra := []string{fmt.Sprintf("(declare-const %s Int)", skn)}
-	conds := []Term{IntLt(IntConst(0), sk), IntLt(sk, x.entry.next)}
+	own := Term{"(owner " + skn + ")", SInt}
+	conds := []Term{IntLt(IntConst(0), own), IntLt(own, x.entry.next)}
 	for _, tr := range x.targetRefs(k) {
 		conds = append(conds, Not(Eq(sk, tr)))
 	}
